@@ -216,7 +216,7 @@ impl Property for C12 {
         tier.pick(30_000, 1_000_000)
     }
     fn strategy(&self, tier: Tier) -> BoxedStrategy<crate::scale::WithMid<RawSem>> {
-        crate::scale::with_mid(raw_sem_weighted(tier.pick(3, 4), 1..=1, 5, tier.pick(14, 20), 10), 99, 10, tier.pick(600, 2500))
+        crate::scale::with_mid(raw_sem_weighted(tier.pick(3, 4), 1..=1, 5, tier.pick(14, 20), 10), tier.pick(99, 249), 10, tier.pick(600, 2500))
     }
     fn check_raw(&self, raw: &crate::scale::WithMid<RawSem>) -> Verdict {
         let raw = match raw {
